@@ -1009,7 +1009,74 @@ def abandoned_waits(case):
                         'abandoned_waits_unhandled': int(not handled)}
 
 
+def inexact_until(case):
+    """`env.run(until=t)` stops exactly at t - also when neither the initial time nor t nor the
+    delays are exact in binary floating point and the environment does not begin at zero:
+    `env.now == t` afterwards, whatever was due before t has happened, nothing that is due later"""
+    rng = random.Random('%s/%s/c18-inexact' % (case['seed'], case['index']))
+    tenths = [n / 10 for n in range(1, 60)]
+    initial = rng.choice([0, 0.1, 0.2, 0.3, 0.7, 1.1, 2.3])
+    until = rng.choice([t for t in tenths if t > initial])
+    delays = [rng.choice(tenths) for _ in range(rng.randint(2, 6))]
+    embedded = rng.random() < 0.4
+    resumed = {}
+    holder = {}
+    sess = Session(budget_per_step=20000, budget_total=400000)
+
+    def sleeper(env, number, delay):
+        yield env.timeout(delay)
+        resumed[number] = env.now
+
+    def standalone():
+        env = usimpy.Environment(initial)
+        for number, delay in enumerate(delays):
+            env.process(sleeper(env, number, delay))
+        env.run(until=until)
+        holder['now'] = env.now
+
+    async def native():
+        await (usim.time + initial) if initial else None
+        env = usimpy.Environment(initial)
+        for number, delay in enumerate(delays):
+            env.process(sleeper(env, number, delay))
+        await env.until(until)      # (the asynchronous version of run)
+        holder['now'] = env.now
+        holder['native'] = usim.time.now
+
+    if embedded:
+        outcome = sess.run(native())
+    else:
+        outcome = sess.run(runner=standalone)
+    violations = [dict(v) for v in sess.violations if v['mechanism'].startswith('kernel-')]
+    what = 'Environment(%r) %s, delays %s, until=%r' % (
+        initial, 'inside a native simulation' if embedded else 'standalone', delays, until)
+    if outcome[0] != 'ok':
+        violations.append({'mechanism': 'c18:run-failed', 'msg': '%s: %r' % (what, outcome[1])})
+    else:
+        if holder.get('now') != until or (embedded and holder.get('native') != until):
+            violations.append({'mechanism': 'c18:until-time',
+                               'msg': '%s: stopped at env.now %r (native clock %r)' % (
+                                   what, holder.get('now'), holder.get('native'))})
+        for number, delay in enumerate(delays):
+            due = initial + delay
+            if due < until and resumed.get(number) != due:
+                violations.append({'mechanism': 'c18:until-time',
+                                   'msg': '%s: the process due at %r (before the stop) %s' % (
+                                       what, due, 'resumed at %r' % resumed[number]
+                                       if number in resumed else 'never resumed')})
+            elif due > until and number in resumed:
+                violations.append({'mechanism': 'c18:until-time',
+                                   'msg': '%s: the process due at %r resumed at %r although the '
+                                          'run stops before' % (what, due, resumed[number])})
+    for vio in violations:
+        vio['case'] = dict(case)
+    return violations, {'inexact_until_runs': 1}
+
+
 def run_case(case):
+    if case['index'] % 20 == 17:
+        violations, extra = inexact_until(case)
+        return {'evals': 1, 'sigs': [], 'stats': extra, 'violations': violations, 'sample': None}
     if case['index'] % 20 == 13:
         violations, extra = abandoned_waits(case)
         return {'evals': 1, 'sigs': [], 'stats': extra, 'violations': violations, 'sample': None}
